@@ -31,15 +31,11 @@ type flatMem struct {
 func newFlatMem(seed uint64) *flatMem {
 	return &flatMem{seed: seed, data: map[uint64]byte{}, touched: map[uint64]bool{}}
 }
-func (m *flatMem) def(a uint64) byte {
-	x := a ^ (m.seed * 0x9e3779b97f4a7c15)
-	x ^= x >> 30
-	x *= 0xbf58476d1ce4e5b9
-	x ^= x >> 27
-	x *= 0x94d049bb133111eb
-	x ^= x >> 31
-	return byte(x)
+// dfltByte: default content of memory and LDS, the same formula as IsaCheck.dflt
+func dfltByte(seed uint64, a uint64) byte {
+	return byte((a%251)*167 + ((a/256)%65521)*59 + seed&0xff)
 }
+func (m *flatMem) def(a uint64) byte { return dfltByte(m.seed, a) }
 func (m *flatMem) get(a uint64) byte {
 	if v, ok := m.data[a]; ok {
 		return v
@@ -62,14 +58,16 @@ func (m *flatMem) Write(pid vm.PID, vAddr uint64, data []byte) {
 		m.touched[vAddr+uint64(i)] = true
 	}
 }
-func (m *flatMem) snapshot() (pre, post []ByteVal) {
-	keys := make([]uint64, 0, len(m.touched))
-	for a := range m.touched {
-		keys = append(keys, a)
+// snapshot: the bytes that differ from the default content after the run (sorted)
+func (m *flatMem) snapshot() (post []ByteVal) {
+	keys := make([]uint64, 0, len(m.data))
+	for a, v := range m.data {
+		if v != m.def(a) {
+			keys = append(keys, a)
+		}
 	}
 	sort.Slice(keys, func(i, j int) bool { return keys[i] < keys[j] })
 	for _, a := range keys {
-		pre = append(pre, ByteVal{a, m.def(a)})
 		post = append(post, ByteVal{a, m.get(a)})
 	}
 	return
@@ -187,32 +185,51 @@ func memCase(alu string, m mop, r *vh.Rng, k int) Case {
 		d0 := 100 + 4*r.Intn(10)
 		d1 := 150 + 4*r.Intn(10)
 		vdst := 200 + 4*r.Intn(10)
-		strides := []uint32{2, 0, 1, 3, 2, 1}
-		stride := strides[k%len(strides)]
-		o0 := []int{0, 4, 1, 16, 9, 2}[k%6]
-		o1 := []int{1, 0, 5, 2, 7, 3}[k%6]
-		for l := 0; l < 64; l++ {
-			a := uint32(l)*stride + uint32(k%3)
-			if k == 5 && l == 63 {
-				a = 0xfffffff0 // wraps with the offset / leaves the allocation
-			}
-			if k >= memGridN(m) {
-				a = uint32(r.Intn(200))
-				if r.Intn(40) == 0 {
-					a = uint32(r.U64())
+		single := false
+		switch m.op {
+		case 13, 30, 54, 118, 223, 255:
+			single = true
+		}
+		// EXEC: full, a tail of 60 lanes, even lanes, lanes 0 and 63 off, holes, lane 63, none, lane 0, full
+		c.Pre.EXEC = []uint64{0xffffffffffffffff, 0x0fffffffffffffff, 0x5555555555555555, 0x7ffffffffffffffe,
+			0xaaaaaaaa55555555, 1 << 63, 0, 1, 0xffffffffffffffff}[k%9]
+		c.Sparse = c.Pre.EXEC&(c.Pre.EXEC-1) == 0
+		o0, o1 := 0, 0
+		stride := uint32(16)
+		base := uint32(k % 3)
+		if k < memGridN(m) {
+			if single { // 16-bit offset
+				off := []int{0, 4, 0xff, 0x100, 0x7ffc, 0xfffc, 0x1, 0x8000, 0xfff0}[k%9]
+				o0, o1 = off&0xff, off>>8
+				if off > 0xf000 {
+					stride, base = 0, 0 // every lane at the top of the 64 KiB allocation
 				}
+			} else { // two 8-bit offsets, scaled by the access size
+				v := []int{0, 1, 31, 32, 63, 64, 127, 128, 255}
+				o0, o1 = v[k%9], v[(k+4)%9]
+			}
+			if k%9 == 3 {
+				stride = 3 // unaligned, overlapping
+			}
+		} else {
+			c.Class = "mem-random"
+			c.Pre.EXEC = r.U64()
+			c.Sparse = false
+			o0, o1 = r.Intn(256), r.Intn(256)
+			if single && r.Bool() {
+				o1 = 0
+			}
+			stride = uint32(r.Intn(40))
+		}
+		for l := 0; l < 64; l++ {
+			a := uint32(l)*stride + base
+			if k >= memGridN(m) && r.Intn(40) == 0 {
+				a = uint32(r.U64()) // leaves the allocation / wraps
+			}
+			if k == 8 && l == 62 {
+				a = 0xfffffff0
 			}
 			setV(&c, l, addr, a)
-		}
-		if k >= memGridN(m) {
-			o0, o1 = r.Intn(12), r.Intn(12)
-		}
-		switch m.op {
-		case 13, 30, 54, 118, 223, 255: // one address: offset1 is the high byte of the 16-bit offset
-			o1 = 0
-			if k == 4 {
-				o1 = 1
-			}
 		}
 		c.Words = encDS(m.op, o0, o1, addr, d0, d1, vdst)
 		c.Kinds = []string{"ds"}
@@ -225,7 +242,10 @@ func memCase(alu string, m mop, r *vh.Rng, k int) Case {
 // memGridN: number of deterministic cases of a memory opcode.
 func memGridN(m mop) int {
 	if m.fmt == "FLAT" {
-		return flatNA(m.op) + 6 + 4
+		return flatNA(m.op) + 6 + 7
+	}
+	if m.fmt == "DS" {
+		return 9
 	}
 	return memGrid
 }
@@ -374,10 +394,11 @@ func flatCase(c *Case, alu string, m mop, r *vh.Rng, k int) {
 				lane[l] = a - uint64(off)
 			}
 		}
-	case k < nA+10: // ---- EXEC corners on a contiguous pattern
+	case k < nA+13: // ---- EXEC corners on a contiguous pattern
 		c.Class = "mem-exec"
 		e := k - nA - 6
-		c.Pre.EXEC = []uint64{0, 1, 1 << 63, 0xaaaaaaaa55555555}[e]
+		// none, lane 0, lane 63, holes, a tail of 60 lanes (lanes 60..63 off), even lanes, lanes 0 and 63 off
+		c.Pre.EXEC = []uint64{0, 1, 1 << 63, 0xaaaaaaaa55555555, 0x0fffffffffffffff, 0x5555555555555555, 0x7ffffffffffffffe}[e]
 		c.Sparse = e < 3
 		pair := alu != "gcn3" && e%2 == 1
 		for l := 0; l < 64; l++ {
